@@ -4,6 +4,7 @@ import (
 	"encoding/binary"
 	"errors"
 	"fmt"
+	"io"
 )
 
 // HeaderHash
@@ -473,7 +474,8 @@ func (b *ByteSequence) Decode(d *Decoder) error {
 
 	// make the slice with length
 	byteSequence := make([]byte, length)
-	_, err = d.buf.Read(byteSequence)
+	// io.ReadFull: a short read (input ends inside the sequence) is an error
+	_, err = io.ReadFull(d.buf, byteSequence)
 	if err != nil {
 		return err
 	}
@@ -3149,7 +3151,7 @@ func (e *ExtrinsicData) Decode(d *Decoder) error {
 	}
 
 	data := make([]byte, length)
-	if _, err := d.buf.Read(data); err != nil {
+	if _, err := io.ReadFull(d.buf, data); err != nil {
 		return err
 	}
 	cLog(Yellow, "ExtrinsicData: %x", data)
